@@ -88,6 +88,48 @@ class Ser:
     def __init__(self, opnames):
         self.opnames = opnames
         self.hoist = []
+        self.helpers = {}
+
+    def inline(self, call):
+        """statements of the helper `self._h(args)` with its parameters replaced by the argument expressions"""
+        import copy
+        fn = self.helpers[call.func.attr]
+        self.depth = getattr(self, 'depth', 0) + 1
+        if self.depth > 8:
+            fail('helper methods call each other too deeply', call)
+        params = [a.arg for a in fn.args.args[1:]]
+        if call.keywords or len(call.args) != len(params) or fn.args.vararg or fn.args.kwarg or fn.args.kwonlyargs \
+                or fn.args.defaults or any(isinstance(a, ast.Starred) for a in call.args):
+            fail('helper call outside the subset', call)
+        if not all(isinstance(a, (ast.Name, ast.Constant)) for a in call.args):
+            fail('helper argument is not a name or a constant (evaluation order)', call)
+        body = list(fn.body)
+        if body and isinstance(body[0], ast.Expr) and isinstance(body[0].value, ast.Constant) and isinstance(body[0].value.value, str):
+            body = body[1:]
+        if body and isinstance(body[-1], ast.Return) and body[-1].value is None:
+            body = body[:-1]
+        sub = dict(zip(params, call.args))
+        n = self.depth
+
+        class T(ast.NodeTransformer):
+            def visit_Name(self, node):
+                if node.id in sub:
+                    return copy.deepcopy(sub[node.id])
+                if node.id in locals_:
+                    return ast.copy_location(ast.Name(id=f'h{n}_{node.id}', ctx=node.ctx), node)
+                return node
+        locals_ = set()
+        for b in body:
+            for node in ast.walk(b):
+                if isinstance(node, ast.Return):
+                    fail('helper method returns a value / returns early', node)
+                if isinstance(node, ast.Name) and isinstance(node.ctx, ast.Store) and node.id not in sub:
+                    locals_.add(node.id)
+                if isinstance(node, ast.Name) and isinstance(node.ctx, ast.Store) and node.id in sub:
+                    fail('helper method assigns to its parameter', node)
+        out = [ast.fix_missing_locations(T().visit(copy.deepcopy(b))) for b in body]
+        self.depth -= 1
+        return out
 
     def expr(self, e, env):
         """-> Gallina text of a value (N or list); env: python local -> kind"""
@@ -177,6 +219,11 @@ class Ser:
             if st.value is not None and not (isinstance(st.value, ast.Name) and env.get(st.value.id) == 'ret'):
                 fail('return of something else than the super() result', st)
             return k
+        # a private helper method of the class = its body inlined at the call site, parameters substituted
+        if isinstance(st, ast.Expr) and isinstance(st.value, ast.Call) and isinstance(st.value.func, ast.Attribute) \
+                and isinstance(st.value.func.value, ast.Name) and st.value.func.value.id == 'self' \
+                and st.value.func.attr in self.helpers:
+            return self.stmts(self.inline(st.value) + list(rest), env, k, top)
         if isinstance(st, ast.Expr) and isinstance(st.value, ast.Call) and ast.unparse(st.value.func) == 'self.out.write' \
                 and len(st.value.args) == 1 and not st.value.keywords:
             a = st.value.args[0]
@@ -268,7 +315,15 @@ def serializer(src, opnames):
     out, sups = [], []
     S = Ser(opnames)
     seen_init = False
+    # private helpers (single leading underscore): not part of the Interpreter interface, inlined where called
     for st in cls.body:
+        if isinstance(st, ast.FunctionDef) and st.name.startswith('_') and not st.name.startswith('__'):
+            if st.decorator_list:
+                fail('decorated helper method', st)
+            S.helpers[st.name] = st
+    for st in cls.body:
+        if isinstance(st, ast.FunctionDef) and st.name in S.helpers:
+            continue
         if isinstance(st, ast.Expr) and isinstance(st.value, ast.Constant):
             continue
         if not isinstance(st, ast.FunctionDef):
@@ -313,6 +368,70 @@ CALLS = {
     'publish_claim': ('CPublishClaim', ['pat']),
 }
 PHASES = {'Gamma': 'Gamma', 'Claim': 'Claim', 'Proof': 'Proof'}
+
+
+def canon_body(body):
+    """canonical form of a statement list (equivalences that hold by construction):
+       * `assert x is not None` dropped (x a plain name: the readers return an int or raise; an assert cannot
+         change any value and the model maps a failing assert and a raise to the same reject)
+       * `match E: case None: A  case x: B`            ==  `x = E; if x is None: A` followed by B
+       * `r = []; for i in R: [e = E;] r.append(e|E); return tuple(r)`  ==  `return tuple(E for i in R)`"""
+    out = []
+    for st in body:
+        if isinstance(st, ast.Assert) and isinstance(st.test, ast.Compare) and len(st.test.ops) == 1 \
+                and isinstance(st.test.ops[0], ast.IsNot) and isinstance(st.test.left, ast.Name) \
+                and isinstance(st.test.comparators[0], ast.Constant) and st.test.comparators[0].value is None:
+            continue
+        if isinstance(st, ast.Match) and len(st.cases) == 2 and st.cases[0].guard is None and st.cases[1].guard is None \
+                and isinstance(st.cases[0].pattern, ast.MatchSingleton) and st.cases[0].pattern.value is None \
+                and isinstance(st.cases[1].pattern, ast.MatchAs) and st.cases[1].pattern.pattern is None \
+                and st.cases[1].pattern.name is not None:
+            x = st.cases[1].pattern.name
+            out.append(ast.Assign(targets=[ast.Name(id=x, ctx=ast.Store())], value=st.subject, lineno=st.lineno))
+            test = ast.Compare(left=ast.Name(id=x, ctx=ast.Load()), ops=[ast.Is()], comparators=[ast.Constant(value=None)])
+            out.append(ast.If(test=test, body=canon_body(st.cases[0].body), orelse=[], lineno=st.lineno))
+            out += canon_body(st.cases[1].body)
+            continue
+        if isinstance(st, (ast.If, ast.For, ast.While)):
+            import copy
+            st = copy.copy(st)
+            st.body = canon_body(st.body)
+            st.orelse = canon_body(st.orelse)
+        out.append(st)
+    # loop that appends -> generator
+    i = 0
+    res = []
+    while i < len(out):
+        a = out[i]
+        if i + 2 < len(out) and isinstance(a, ast.Assign) and len(a.targets) == 1 and isinstance(a.targets[0], ast.Name) \
+                and isinstance(a.value, ast.List) and not a.value.elts and isinstance(out[i + 1], ast.For) \
+                and isinstance(out[i + 2], ast.Return):
+            r, loop, ret = a.targets[0].id, out[i + 1], out[i + 2]
+            elt = None
+            lb = loop.body
+            if not loop.orelse and isinstance(loop.target, ast.Name):
+                if len(lb) == 1 and ast.unparse(lb[0]).startswith(f'{r}.append(') and isinstance(lb[0], ast.Expr):
+                    elt = lb[0].value.args[0]
+                elif len(lb) == 2 and isinstance(lb[0], ast.Assign) and len(lb[0].targets) == 1 \
+                        and isinstance(lb[0].targets[0], ast.Name) and isinstance(lb[1], ast.Expr) \
+                        and ast.unparse(lb[1]) == f'{r}.append({lb[0].targets[0].id})':
+                    elt = lb[0].value
+            if elt is not None and ast.unparse(ret.value) == f'tuple({r})':
+                gen = ast.GeneratorExp(elt=elt, generators=[ast.comprehension(target=loop.target, iter=loop.iter, ifs=[], is_async=0)])
+                res.append(ast.Return(value=ast.Call(func=ast.Name(id='tuple', ctx=ast.Load()), args=[gen], keywords=[]),
+                                      lineno=ret.lineno))
+                i += 3
+                continue
+        res.append(a)
+        i += 1
+    return res
+
+
+def canon_fn(fn):
+    import copy
+    fn = copy.copy(fn)
+    fn.body = canon_body(fn.body)
+    return ast.fix_missing_locations(fn)
 
 
 def alpha(node):
@@ -714,6 +833,8 @@ def deserializer(src, opnames):
     if len(body) != len(ref) + 1:
         fail('deserialize_instructions: statements besides the three readers and the loop', fn)
     for got, want in zip(body[:-1], ref):
+        if isinstance(got, ast.FunctionDef) and isinstance(want, ast.FunctionDef):
+            got, want = canon_fn(got), canon_fn(want)
         if alpha(got).replace(f"id='{data}'", "id='data'") != alpha(want).replace(f"id='{data}'", "id='data'"):
             fail('byte reader differs from the reference (maybe_next_byte / next_byte / read_list)', got)
     loop = body[-1]
@@ -730,6 +851,26 @@ def deserializer(src, opnames):
     D = Deser(opnames, interp)
     chain = loop.body[1]
     branches = []
+    if isinstance(chain, ast.Match):
+        # `match instruction: case Instruction.X: ... case _: raise` = the if/elif chain on `instruction == Instruction.X`
+        if not (isinstance(chain.subject, ast.Name) and chain.subject.id == instr):
+            fail('match subject is not the decoded instruction', chain)
+        for i, case in enumerate(chain.cases):
+            if case.guard is not None:
+                fail('guarded case in the dispatch', chain)
+            pt = case.pattern
+            last = i == len(chain.cases) - 1
+            if last:
+                if not (isinstance(pt, ast.MatchAs) and pt.pattern is None and pt.name is None and D.is_raise(case.body)):
+                    fail('the last case of the dispatch is not `case _: raise`', chain)
+                break
+            if not (isinstance(pt, ast.MatchValue) and isinstance(pt.value, ast.Attribute)
+                    and ast.unparse(pt.value.value) == 'Instruction' and pt.value.attr in opnames):
+                fail('case pattern is not `Instruction.X`', chain)
+            branches.append((pt.value.attr, D.stmts(case.body, {})))
+        if len({b for b, _ in branches}) != len(branches):
+            fail('an Instruction has two arms')
+        return branches
     while True:
         if not isinstance(chain, ast.If):
             fail('dispatch is not an if/elif chain', chain)
